@@ -7,6 +7,10 @@ func schedScenarios(prop, tier string) []*Scenario {
 	switch prop {
 	case "C01":
 		return c01Scenarios(tier)
+	case "C08":
+		return c08Scenarios(tier)
+	case "C07":
+		return c07Scenarios(tier)
 	}
 	return nil
 }
